@@ -9,9 +9,23 @@ none) the function of `Model/CnfToken.lean` that the DIMACS theorems of C03–C0
 the core crate are mapped to the models of those functions, which are tied to their own source by
 `Props/TieText.lean` and `Props/TieReader.lean`.
 
-Not translated (closures and `Parsed` combinators; listed with reasons in `tools/unit_cnftoken.py`):
-`var_count`, `uint_count`, `clause_group`, `clause_lits`, `non_terminating_linebreaks`,
-`interactive_end_of_line`, `unexpected`, `exceeds_var_count` — these stay tied by correspondence runs.
+Functions built from closures and `flussab::Parsed` combinators (`interactive_end_of_line`, `var_count`,
+`uint_count`, `clause_group`, `non_terminating_linebreaks`): the combinators are the hand-written contracts
+of `Model/CnfTokenExt.lean` (`or_parse`, `or_give_up`, `map_err`, `and_also` of flussab/src/parser.rs, applied
+to the value of the receiver and the translated closure body); a `ParseError` is the thrown outcome, `?` /
+`Ok` / `Err` are the identity on it, messages (`format!`) are not modelled.  The generic number tokens are
+called at the instance rustc infers (`usize` in `var_count` / `clause_group`, `T` in `uint_count::<T>`);
+`L: Dimacs` is the parameter `(l : Cnf.LitTy)`, `L::MAX_DIMACS as usize` is
+`CnfTokenExt.isizeAsUsize l.maxDimacs` (= `l.maxDimacs`: it is not negative).  Parameters that only select
+a message (`what`, `hard_limit`) are parameters of the generated function and absent from the model.
+`non_terminating_linebreaks_tied` holds for *every* state although the generated loop and the model's
+`skipLinesLoop` end differently when the fuel `rest.length + 1` runs out: it never does, since every
+iteration that continues has consumed at least one byte.
+
+Not translated (listed with reasons in `tools/unit_cnftoken.py`): `clause_lits` (out-parameter
+`lits: &mut Vec<L>` mutated by a closure that contains the loop: the emitter has no closures that assign
+captured variables), `unexpected`, `exceeds_var_count` (message formatting; calls of them are the models
+`Cnf.unexpected` / `Cnf.exceedsVarCount`) — these stay tied by correspondence runs.
 -/
 import Flussab.Proof.TieCnfToken
 
@@ -37,9 +51,32 @@ theorem interactive_newline_tied : Gen.CnfToken.interactiveNewline = Cnf.interac
 theorem eof_tied : Gen.CnfToken.eof = Cnf.eof := eof_eq
 theorem skip_whitespace_tied : Gen.CnfToken.skipWhitespace = Cnf.skipWhitespace := skipWhitespace_eq
 
+theorem interactive_end_of_line_tied : Gen.CnfToken.interactiveEndOfLine = Cnf.interactiveEndOfLine :=
+  interactiveEndOfLine_eq
+theorem var_count_tied (l : Cnf.LitTy) : Gen.CnfToken.varCount l = Cnf.varCount l := varCount_eq l
+theorem uint_count_tied (t : IntTy) (what : Unit) : Gen.CnfToken.uintCount t what = Cnf.uintCount t :=
+  uintCount_eq t what
+theorem clause_group_tied (limit : Nat) (hardLimit : Bool) :
+    Gen.CnfToken.clauseGroup limit hardLimit = Cnf.clauseGroup (limit : Int) := clauseGroup_eq limit hardLimit
+theorem non_terminating_linebreaks_tied : Gen.CnfToken.nonTerminatingLinebreaks = Cnf.nonTerminatingLinebreaks :=
+  nonTerminatingLinebreaks_eq
+
 /-- Non-vacuity: the generated `int` token on `"-7 x"` for `i8`. -/
 example : (match (Gen.CnfToken.int ⟨true, 8⟩ (LR.init [45, 55, 32, 120] false)).1 with
     | .ok (some (some x)) => x == -7
+    | _ => false) = true := by
+  decide
+
+/-- Non-vacuity: the generated `var_count::<i8>` on `"128 "` is the syntax error at the mark (line 1, column 1). -/
+example : (match (Gen.CnfToken.varCount ⟨8⟩ (LR.init [49, 50, 56, 32] false)).1 with
+    | .error (.syn l c) => l == 1 && c == 1
+    | _ => false) = true := by
+  decide
+
+/-- Non-vacuity: the generated `non_terminating_linebreaks` on `"\n1"` (kept tiny: kernel evaluation of the
+fuelled loop is expensive). -/
+example : (match (Gen.CnfToken.nonTerminatingLinebreaks (LR.init [10, 49] false)).1 with
+    | .ok b => b
     | _ => false) = true := by
   decide
 
